@@ -88,7 +88,7 @@ def cpus():
 
 
 def budget(tier):
-    return dict(examples=3500 if tier == "quick" else 150000, shards=16)
+    return dict(examples=2800 if tier == "quick" else 150000, shards=16)
 
 
 @composite
@@ -255,17 +255,13 @@ def build_run(case, d, flavour):
                     flavour=flavour, timeout=90, cpu=20, fsize=1 << 27)
         return "asl", r, None, None
     if k == "fuzz":
+        from vf import fuzzrun
         data = bytes.fromhex(case["data"])
         tool = case["tool"]
-        if tool == "asl":
-            run.write_files(d, {"t.asm": data})
-            r = run.run(["asl", "-q", "t.asm"], d, flavour=flavour, timeout=60, cpu=12, fsize=1 << 26)
-            return "asl", r, data.decode("latin-1"), None
-        run.write_files(d, {"a.p": data})
-        argv = {"plist": ["plist", "a.p"], "pbind": ["pbind", "a.p", "o.p"], "p2bin": ["p2bin", "a.p", "o.bin"],
-                "p2hex": ["p2hex", "a.p", "o.hex"], "alink": ["alink", "a.p", "o.p"]}[tool] + case.get("opts", [])
+        argv, inp = fuzzrun.argv_for(tool, data)
+        run.write_files(d, {inp: data[1:]})
         r = run.run(argv, d, flavour=flavour, timeout=60, cpu=12, fsize=1 << 27)
-        return tool, r, "", None
+        return tool, r, (data[1:].decode("latin-1") if tool == "asl" else ""), None
     tool = case["tool"]
     if tool == "dasl":
         data = bytes.fromhex(case["data"])
@@ -339,13 +335,46 @@ def fixed_cases(tier):
         out.append(dict(kind="stmt", cpu=cpu, lines=lines, opts=[]))
     for n in corpus.names():
         out.append(dict(kind="mut", test=n, ops=[]))       # the unmodified golden programs under the sanitizers
-    root = os.path.join(engine.ROOT, "fuzz", "regress")
-    for path in sorted(glob.glob(os.path.join(root, "*", "*"))):
-        tool = os.path.basename(os.path.dirname(path))
-        data = open(path, "rb").read()
-        if len(data) <= 1 << 16:
-            out.append(dict(kind="fuzz", tool=tool, data=data.hex(), opts=[]))
+    root = os.path.join(engine.ROOT, "fuzz")
+    for sub in ("regress", "seeds"):
+        for path in sorted(glob.glob(os.path.join(root, sub, "*", "*"))):
+            tool = os.path.basename(os.path.dirname(path))
+            data = open(path, "rb").read()
+            if 0 < len(data) <= 1 << 16:
+                out.append(dict(kind="fuzz", tool=tool, data=data.hex(), origin=sub))
+    # artifacts of this run's libFuzzer campaigns (candidates only; the stand-alone judge decides)
+    for tool, kind, data in _campaign.get("arts", []):
+        out.append(dict(kind="fuzz", tool=tool, data=data.hex(), origin="libfuzzer-" + kind))
     return out
+
+
+_campaign = {}
+
+
+def prepare(tier):
+    """coverage-guided campaigns, one libFuzzer target per tool, run before the Hypothesis shards"""
+    if os.environ.get("VERIF_C03_NOFUZZ"):
+        return
+    from vf import fuzzrun
+    secs = 25 if tier == "quick" else 600
+    arts, stats = fuzzrun.campaign(engine.seed_from_env(), secs, workers_per_target=2)
+    # keep at most 40 artifacts per tool for the judge (smallest first)
+    per = {}
+    for a in sorted(arts, key=lambda a: len(a[2])):
+        per.setdefault(a[0], [])
+        if len(per[a[0]]) < 40:
+            per[a[0]].append(a)
+    _campaign["arts"] = [a for v in per.values() for a in v]
+    _campaign["stats"] = stats
+    _campaign["found"] = len(arts)
+
+
+def coverage_extra(tier, classes):
+    st = _campaign.get("stats", {})
+    return dict(libfuzzer=dict(targets=st, total_execs=sum(v["execs"] for v in st.values()),
+                               artifacts_saved=_campaign.get("found", 0),
+                               artifacts_judged=len(_campaign.get("arts", [])),
+                               note="artifacts are candidates; each was replayed stand-alone by the sanitizer judge"))
 
 
 def _sig(prefix):
